@@ -207,6 +207,7 @@ func (x *Exec) callFuncValue(s *State, fv *Value, call *ast.CallExpr) []*Value {
 				nw.Tag = tag
 				nw.Rest = Var(tag, SInt)
 				nw.RestMod = nil
+				nw.ModVer = nil
 				nw.Fams = map[string]*FamState{}
 				nw.Bal = Var(tag+".bal", w.Bal.S)
 				nw.Supply = Var(tag+".supply", w.Supply.S)
